@@ -51,7 +51,6 @@ theorem build_spec {fl : α → Int} (feats : List (List (α × α))) (res : Opt
     WF ix ∧ (∀ t ∈ feats, ∀ p ∈ t, getCell ix p ≠ none) ∧
     (∀ k t, feats[k]? = some t → ∀ A B, (A, B) ∈ Consec t → ∀ pA pB, getCell ix A = some pA → getCell ix B = some pB →
       ∀ cell ∈ cellsCross fl pA pB, Holds ix.grid cell.1 cell.2 k) ∧
-    (IsFloor fl → (∀ r, res = some r → 0 < r.1 ∧ 0 < r.2) → 0 < ix.csize ∧ 0 < ix.lsize) ∧
     (∀ t ∈ feats, Consec t ≠ [] → NZ ix) := by
   unfold build at hb
   cases hbb : bboxOf feats.flatten with
@@ -67,19 +66,11 @@ theorem build_spec {fl : α → Int} (feats : List (List (α × α))) (res : Opt
         intro t ht p hp
         exact getCell_of_bbox fl bb res margin ix0 hmk hm p (hbounds p (List.mem_flatten.mpr ⟨t, ht, hp⟩))
       obtain ⟨e, w, z, r⟩ := addFeatures_spec fl feats ix0 ix 0 (mkIndex_wf fl bb res margin ix0 hmk) hin0 hb
-      refine ⟨w, ?_, ?_, ?_, fun t ht hne => (NZ_same e.1).mpr (z t ht hne)⟩
+      refine ⟨w, ?_, ?_, fun t ht hne => (NZ_same e.1).mpr (z t ht hne)⟩
       · intro t ht p hp; rw [getCell_same e.1]; exact hin0 t ht p hp
       · intro k t hk A B hAB pA pB hA hB cell hcell
         have := r k t hk A B hAB pA pB (by rw [← getCell_same e.1]; exact hA) (by rw [← getCell_same e.1]; exact hB) cell hcell
         simpa using this
-      · intro hf hres
-        have hne : feats.flatten ≠ [] := by
-          intro h0; rw [h0] at hbb; simp [bboxOf] at hbb
-        obtain ⟨p0, hp0⟩ := List.exists_mem_of_ne_nil _ hne
-        obtain ⟨b1, b2, b3, b4⟩ := hbounds p0 hp0
-        have := mkIndex_pos hf bb res margin ix0 hmk hm (le_trans b1 b2) (le_trans b3 b4) hres
-        obtain ⟨_, _, _, _, e5, e6, _, _⟩ := e.1
-        rw [e5, e6]; exact this
 
 /-- every point of every segment of feature `k` lies in a cell that lists `k` -/
 theorem build_registers {fl : α → Int} (hf : IsFloor fl) (feats : List (List (α × α))) (res : Option (α × α))
@@ -87,7 +78,7 @@ theorem build_registers {fl : α → Int} (hf : IsFloor fl) (feats : List (List 
     (k : Nat) (t : List (α × α)) (hk : feats[k]? = some t) (A B : α × α) (hAB : (A, B) ∈ Consec t)
     (s : α) (hs0 : 0 ≤ s) (hs1 : s ≤ 1) :
     ∃ c, getCell ix (lerp A B s) = some c ∧ Holds ix.grid (fl c.1) (fl c.2) k := by
-  obtain ⟨_, hin, hreg, _, _⟩ := build_spec feats res margin ix hm hb
+  obtain ⟨_, hin, hreg, _⟩ := build_spec feats res margin ix hm hb
   have ht : t ∈ feats := List.mem_of_getElem? hk
   have memAB : A ∈ t ∧ B ∈ t := by
     clear hk ht hin hreg
@@ -112,12 +103,21 @@ end TV.Grid
 namespace TV.Grid
 variable {α : Type} [Field α] [LinearOrder α] [IsStrictOrderedRing α]
 
-/-- the cells tile the extent exactly: `csize · dX = xmax − xmin`, `lsize · dY = ymax − ymin` (and there is at
-least one column and one row, or a negative number of them) -/
-theorem build_extent {fl : α → Int} (feats : List (List (α × α))) (res : Option (α × α)) (margin : α) (ix : Index α)
-    (hm : 0 ≤ margin) (hb : build fl feats res margin = .ok ix) :
-    ix.dX * ((ix.csize : Int) : α) = ix.xmax - ix.xmin ∧ ix.dY * ((ix.lsize : Int) : α) = ix.ymax - ix.ymin ∧
-    ix.csize ≠ 0 ∧ ix.lsize ≠ 0 := by
+omit [IsStrictOrderedRing α] in
+theorem NZ_iff (ix : Index α) : NZ ix ↔ ix.dX ≠ 0 ∧ ix.dY ≠ 0 := by
+  unfold NZ
+  rw [isZero_false_iff, isZero_false_iff]
+
+/-- the grid of a built index (margin ≥ 0, positive or default cell size): at least one column and one row, positive
+cell sides, the cells tile every axis of positive length exactly (`csize · dX = xmax − xmin`), and an axis of zero
+length (all vertices on one vertical / horizontal line) has a single column / row -/
+theorem build_grid {fl : α → Int} (hf : IsFloor fl) (feats : List (List (α × α))) (res : Option (α × α)) (margin : α)
+    (ix : Index α) (hm : 0 ≤ margin) (hres : ∀ r, res = some r → 0 < r.1 ∧ 0 < r.2)
+    (hb : build fl feats res margin = .ok ix) :
+    1 ≤ ix.csize ∧ 1 ≤ ix.lsize ∧ 0 < ix.dX ∧ 0 < ix.dY ∧
+    (ix.xmin < ix.xmax → ix.dX * ((ix.csize : Int) : α) = ix.xmax - ix.xmin) ∧
+    (ix.ymin < ix.ymax → ix.dY * ((ix.lsize : Int) : α) = ix.ymax - ix.ymin) ∧
+    (ix.xmin = ix.xmax → ix.csize = 1) ∧ (ix.ymin = ix.ymax → ix.lsize = 1) := by
   unfold build at hb
   cases hbb : bboxOf feats.flatten with
   | none => simp [hbb] at hb
@@ -132,71 +132,35 @@ theorem build_extent {fl : α → Int} (feats : List (List (α × α))) (res : O
         intro t ht p hp
         exact getCell_of_bbox fl bb res margin ix0 hmk hm p (hbounds p (List.mem_flatten.mpr ⟨t, ht, hp⟩))
       obtain ⟨e, _, _⟩ := addFeatures_spec fl feats ix0 ix 0 (mkIndex_wf fl bb res margin ix0 hmk) hin0 hb
-      obtain ⟨m1, m2, m3, m4, c1, c2, m7, m8, _⟩ := mkIndex_ok fl bb res margin ix0 hmk
+      obtain ⟨ix1, h1, facts⟩ := mkIndex_builds hf bb res margin hres
+      rw [hmk] at h1
+      cases h1
       obtain ⟨e1, e2, e3, e4, e5, e6, e7, e8⟩ := e.1
-      rw [e1, e2, e3, e4, e5, e6, e7, e8, m7, m8, m1, m2, m3, m4]
-      have h1 : ((ix0.csize : Int) : α) ≠ 0 := by exact_mod_cast c1
-      have h2 : ((ix0.lsize : Int) : α) ≠ 0 := by exact_mod_cast c2
-      exact ⟨div_mul_cancel₀ _ h1, div_mul_cancel₀ _ h2, c1, c2⟩
+      rw [e1, e2, e3, e4, e5, e6, e7, e8]
+      exact facts
 
-omit [IsStrictOrderedRing α] in
-theorem NZ_iff (ix : Index α) : NZ ix ↔ ix.dX ≠ 0 ∧ ix.dY ≠ 0 := by
-  unfold NZ
-  rw [isZero_false_iff, isZero_false_iff]
-
-/-- a returned constructor call over a collection that has a segment (a feature of two vertices or more) went
-through `__getCell`, so no cell side is `0` and the extent is not flat: `xmin < xmax` and `ymin < ymax` -/
-theorem build_nonflat {fl : α → Int} (feats : List (List (α × α))) (res : Option (α × α)) (margin : α) (ix : Index α)
-    (hm : 0 ≤ margin) (hb : build fl feats res margin = .ok ix) (t : List (α × α)) (ht : t ∈ feats)
-    (hseg : Consec t ≠ []) : NZ ix ∧ ix.xmin < ix.xmax ∧ ix.ymin < ix.ymax := by
-  obtain ⟨_, hin, _, _, hz⟩ := build_spec feats res margin ix hm hb
-  obtain ⟨ex, ey, c1, c2⟩ := build_extent feats res margin ix hm hb
-  have hnz := hz t ht hseg
-  obtain ⟨zx, zy⟩ := (NZ_iff ix).mp hnz
-  have hp : ∃ p, p ∈ t := by
-    cases t with
-    | nil => simp [Consec] at hseg
-    | cons p _ => exact ⟨p, by simp⟩
-  obtain ⟨p, hp⟩ := hp
-  obtain ⟨c, hc⟩ := Option.ne_none_iff_exists'.mp (hin t ht p hp)
-  obtain ⟨⟨a1, a2⟩, ⟨b1, b2⟩, _⟩ := (getCell_some_iff ix p c).mp hc
-  have h1 : ((ix.csize : Int) : α) ≠ 0 := by exact_mod_cast c1
-  have h2 : ((ix.lsize : Int) : α) ≠ 0 := by exact_mod_cast c2
-  refine ⟨hnz, ?_, ?_⟩
-  · have : ix.xmax - ix.xmin ≠ 0 := by rw [← ex]; exact mul_ne_zero zx h1
-    exact lt_of_le_of_ne (le_trans a1 a2) (fun h => this (by rw [h]; ring))
-  · have : ix.ymax - ix.ymin ≠ 0 := by rw [← ey]; exact mul_ne_zero zy h2
-    exact lt_of_le_of_ne (le_trans b1 b2) (fun h => this (by rw [h]; ring))
-
-/-- positivity of the grid dimensions (margin ≥ 0, positive or default cell size), and of a cell side whenever the
-extent has a positive length on that axis; a flat axis (`xmin = xmax`) has cell side `0` -/
-theorem build_pos {fl : α → Int} (hf : IsFloor fl) (feats : List (List (α × α))) (res : Option (α × α)) (margin : α)
+/-- both cell sides of a built index are non-zero: `__getCell` never raises on it -/
+theorem build_nz {fl : α → Int} (hf : IsFloor fl) (feats : List (List (α × α))) (res : Option (α × α)) (margin : α)
     (ix : Index α) (hm : 0 ≤ margin) (hres : ∀ r, res = some r → 0 < r.1 ∧ 0 < r.2)
-    (hb : build fl feats res margin = .ok ix) :
-    0 < ix.csize ∧ 0 < ix.lsize ∧ (ix.xmin < ix.xmax → 0 < ix.dX) ∧ (ix.ymin < ix.ymax → 0 < ix.dY) ∧
-    (ix.xmin = ix.xmax → ix.dX = 0) ∧ (ix.ymin = ix.ymax → ix.dY = 0) := by
-  obtain ⟨_, _, _, hpos, _⟩ := build_spec feats res margin ix hm hb
-  obtain ⟨hcs, hls⟩ := hpos hf hres
-  obtain ⟨ex, ey, _, _⟩ := build_extent feats res margin ix hm hb
-  have h1 : (0 : α) < ((ix.csize : Int) : α) := by exact_mod_cast hcs
-  have h2 : (0 : α) < ((ix.lsize : Int) : α) := by exact_mod_cast hls
-  refine ⟨hcs, hls, ?_, ?_, ?_, ?_⟩
-  · intro h
-    have : 0 < ix.dX * ((ix.csize : Int) : α) := by rw [ex]; linarith
-    exact (pos_iff_pos_of_mul_pos this).mpr h1
-  · intro h
-    have : 0 < ix.dY * ((ix.lsize : Int) : α) := by rw [ey]; linarith
-    exact (pos_iff_pos_of_mul_pos this).mpr h2
-  · intro h
-    have : ix.dX * ((ix.csize : Int) : α) = 0 := by rw [ex, h]; ring
-    rcases mul_eq_zero.mp this with h' | h'
-    · exact h'
-    · exact absurd h' (ne_of_gt h1)
-  · intro h
-    have : ix.dY * ((ix.lsize : Int) : α) = 0 := by rw [ey, h]; ring
-    rcases mul_eq_zero.mp this with h' | h'
-    · exact h'
-    · exact absurd h' (ne_of_gt h2)
+    (hb : build fl feats res margin = .ok ix) : NZ ix := by
+  obtain ⟨_, _, pX, pY, _⟩ := build_grid hf feats res margin ix hm hres hb
+  exact (NZ_iff ix).mpr ⟨ne_of_gt pX, ne_of_gt pY⟩
+
+/-- the fractional column (row) index of a point of the extent lies in `[0, csize]` (`[0, lsize]`) -/
+theorem frac_index_range (o hi dC x : α) (n : Int) (hdC : 0 < dC) (hn : 1 ≤ n)
+    (htile : o < hi → dC * ((n : Int) : α) = hi - o) (h1 : o ≤ x) (h2 : x ≤ hi) :
+    0 ≤ (x - o) / dC ∧ (x - o) / dC ≤ ((n : Int) : α) := by
+  refine ⟨div_nonneg (sub_nonneg.mpr h1) (le_of_lt hdC), ?_⟩
+  rw [div_le_iff₀ hdC]
+  rcases lt_or_eq_of_le (le_trans h1 h2) with hlt | heq
+  · have := htile hlt
+    linarith [mul_comm dC ((n : Int) : α)]
+  · have hx : x - o = 0 := by
+      have : x = o := le_antisymm (by rw [heq]; exact h2) h1
+      rw [this]; ring
+    have hn' : (0 : α) ≤ ((n : Int) : α) := by exact_mod_cast (by omega : 0 ≤ n)
+    rw [hx]
+    exact mul_nonneg hn' (le_of_lt hdC)
 
 /-- a point strictly below the upper border of the extent has a column (row) index inside the grid -/
 theorem floor_index_range {fl : α → Int} (hf : IsFloor fl) (o hi dC x : α) (n : Int) (hdC : 0 < dC)
